@@ -163,6 +163,8 @@ def count_classes(ctx, lines):
             ctx.count_class((e["op"], min(sz, 4), "full" if sz == cap else "room", e["alias"] >= 0, e["kind"]))
         elif e.get("e") == "read_chars":
             ctx.count_class(("read_chars", len(e["text"]) >= e["skip"] + e["count"]))
+        elif e.get("e") == "read_chars_big":
+            ctx.count_class(("read_chars_big", "oom" if e["oom"] else e["some"], e["count_q"] >= 4096))
 
 
 def run(ctx):
@@ -222,9 +224,16 @@ def run(ctx):
     if lines:
         count_classes(ctx, lines[:300000])
         ctx.sample({"recorded_events": [json.loads(x) for x in lines[1:3]]})
+    # 5. io::read_chars with counts around 2^31 / 2^32 on a virtual stream (seeded C07g: count narrowed to int)
+    bpath = os.path.join(ctx.workdir, "bigread.ndjson")
+    rc, out = vlib.run_harness(binary, ["bigread", bpath, 0], timeout=900)
+    lines = judge_file(ctx, bpath, "read_chars with a wide count", rc, out)
+    if lines:
+        count_classes(ctx, lines)
+        ctx.traces_validated += len(lines)
     ctx.rule = ("histories: (a) every generated transition of the small TLC model as an op script, (b) seeded random "
                 "histories <= 60 ops over 3 vectors + 2 buffers with all valid positions/counts and aliased values, "
-                "(c) read_chars over all text lengths 0..20 x counts 0..24; a class = (operation, size bucket, "
+                "(c) read_chars over all text lengths 0..20 x counts 0..24, and counts 2^31-1 .. 3*2^31+7 on a virtual stream; a class = (operation, size bucket, "
                 "full/room capacity, aliased?, iterator kind) of an executed event")
     ctx.assumptions += [
         "memory safety (out-of-allocation access, double free, leaks) is only OBSERVED via ASan/UBSan/LSan in the harness and the allocator seam, not decided by the TLA+ spec",
